@@ -102,10 +102,14 @@ const (
 	kSave
 	kRollTo
 	kRelease
-	kPeek // not a statement: another session reads while the tx is open
+	kPeek   // not a statement: another session reads while the tx is open
+	kSyntax // text that does not parse
+	kUse    // pgwire: USE <same database> (makes the session drop its transaction)
+	kCopy   // pgwire: COPY a (id, v, s) FROM stdin
+	kBegin  // follow-up only: BEGIN inside a block
 )
 
-var kindName = []string{"insA", "upsA", "updA", "delA", "selA", "cntA", "insB", "insBnull", "selB", "cntB", "delB", "badSel", "savepoint", "rollbackTo", "release", "peek"}
+var kindName = []string{"insA", "upsA", "updA", "delA", "selA", "cntA", "insB", "insBnull", "selB", "cntB", "delB", "badSel", "savepoint", "rollbackTo", "release", "peek", "syntax", "use", "copy", "begin"}
 
 type arow struct {
 	ID, V int64
@@ -127,7 +131,7 @@ func (k kind) isQuery() bool {
 }
 func (k kind) table() string {
 	switch k {
-	case kInsA, kUpsA, kUpdA, kDelA, kSelA, kCntA, kBadSel:
+	case kInsA, kUpsA, kUpdA, kDelA, kSelA, kCntA, kBadSel, kCopy:
 		return "a"
 	case kInsB, kInsBNull, kSelB, kCntB, kDelB:
 		return "b"
@@ -144,6 +148,8 @@ func (k kind) verb() string {
 		return "UPDATE"
 	case kDelA, kDelB:
 		return "DELETE"
+	case kCopy:
+		return "COPY"
 	}
 	return ""
 }
@@ -220,6 +226,14 @@ func (st *stmt) sql(pm int) (string, []any) {
 		return "DELETE FROM b WHERE v = " + p(st.Tag), ps
 	case kBadSel:
 		return "SELECT nope FROM a", nil
+	case kSyntax:
+		return "INSERT INTO a(id, v, s) VALUES (", nil
+	case kUse:
+		return "USE " + dbName, nil
+	case kBegin:
+		return "BEGIN", nil
+	case kCopy:
+		return "COPY a (id, v, s) FROM stdin", nil
 	case kSave:
 		return "SAVEPOINT " + st.Name, nil
 	case kRollTo:
@@ -235,7 +249,19 @@ func (st *stmt) text() string {
 		return "-- peek from another session"
 	}
 	s, _ := st.sql(pmLiteral)
+	if st.K == kCopy {
+		s += " <" + strings.ReplaceAll(strings.TrimSpace(st.copyData()), "\n", " | ") + ">"
+	}
 	return s
+}
+
+// copyData renders the rows of a COPY in text format.
+func (st *stmt) copyData() string {
+	var b strings.Builder
+	for _, r := range st.Rows {
+		fmt.Fprintf(&b, "%d\t%d\t%s\n", r.ID, r.V, r.S)
+	}
+	return b.String()
 }
 
 // ---- interpreter ----
@@ -279,7 +305,9 @@ func (v *view) exec(s *stmt) res {
 		return res{Err: true}
 	}
 	switch s.K {
-	case kInsA:
+	case kSyntax:
+		return res{Err: true}
+	case kInsA, kCopy:
 		seen := map[int64]bool{}
 		for _, r := range s.Rows {
 			if _, ok := v.st.A[r.ID]; ok || seen[r.ID] {
@@ -369,6 +397,7 @@ type obs struct {
 	Err  string // "" = success
 	Tag  string // pgwire CommandComplete tag
 	Via  string // how it was sent
+	Cont bool   // the statement failed but the front-end keeps the transaction (failed query, pgwire parse error)
 }
 
 func (o *obs) matches(r res) bool {
@@ -403,7 +432,7 @@ func replay(base *state, ro bool, keep bool, ob []obs) (v *view, results []res, 
 		if ok && !ob[i].matches(r) {
 			ok, where = false, i
 		}
-		if r.Err && ob[i].St.K != kBadSel {
+		if r.Err && !ob[i].Cont {
 			// a failed non-query statement aborts the transaction: nothing after it belongs to it
 			break
 		}
